@@ -114,7 +114,10 @@ BOUNDARY_WEIGHTS = [["1/2", "500001/1000000"], ["499999/1000000", "1/2"], ["1/4"
 T40, T52, T60 = 2 ** 40, 2 ** 52, 2 ** 60
 # tiny positive probabilities (2^-40, 2^-52, 2^-60: far below np.isclose's atol) first / in the middle of a support
 TINY_WEIGHTS = [["1/%d" % T40, "%d/%d" % (T40 - 1, T40)], ["1/2", "1/%d" % T40, "%d/%d" % (T40 // 2 - 1, T40)],
-                ["1/%d" % T52, "%d/%d" % (T52 - 1, T52)], ["1/%d" % T60, "1/2", "1/2"]]
+                ["1/%d" % T52, "%d/%d" % (T52 - 1, T52)], ["1/%d" % T60, "1/256"]]
+# (2^-60 next to 2^-8, unnormalised: both running sums are doubles; u * total is only ever compared with 2^-60, and the stream
+#  values are either 2^-70 or >= 2^-21, so rounding of the product cannot change the side)
+TINY_NORMALISED = [ws for ws in TINY_WEIGHTS if sum(F(w) for w in ws) == 1]     # POMDP kernels: belief policies assert sum = 1
 BOUNDARY_WEIGHTS += TINY_WEIGHTS
 # non-dyadic rows whose double sum is not exactly 1 (0.7+0.2+0.1), thirds, sevenths, tenths
 NONDYADIC_WEIGHTS = [["7/10", "1/5", "1/10"], ["1/3", "1/3", "1/3"], ["1/7", "2/7", "4/7"], ["1/10", "9/10"], ["1/3", "2/3"],
@@ -141,7 +144,13 @@ def _check_templates():
             u = cum / tot
             k = round(u * DEN)
             d = abs(u - F(k, DEN))
-            dyadic = all(F(x).denominator & (F(x).denominator - 1) == 0 for x in ws)   # exact in doubles: any distance is safe
+            dyadic = all(F(x).denominator & (F(x).denominator - 1) == 0 for x in ws)
+            if dyadic:
+                # exact in doubles (then any distance is safe) only if every running sum is itself a double
+                run = F(0)
+                for x in ws:
+                    run += F(x)
+                    assert F(float(run)) == run, ws
             assert dyadic or d > F(1, 10 ** 9), ws
 
 
@@ -170,7 +179,7 @@ def perturb_mdp(rng, m, dyadic=False):
             m["init"] = d["items"]
             feats.append("boundary_init")
     if not dyadic and m["reward"] and rng.random() < .5:
-        for k in rng.sample(sorted(m["reward"]), min(2, len(m["reward"]))):
+        for k in rng.sample(sorted(m["reward"]), min(5, len(m["reward"]))):
             r = rng.choice(NONDYADIC_REWARDS)
             m["reward"][k] = r if F(m["gamma"]) != 1 or F(r) < 0 else str(-F(r))
         feats.append("nondyadic_rewards")
@@ -479,14 +488,19 @@ def gen_pomdp_run(rng, tier, probe=False):
             others = [o for o in range(nO) if o not in [i for i, p in d["items"]]]
             if others and rng.random() < .3:
                 d["items"].insert(rng.randint(0, len(d["items"])), [rng.choice(others), "0"])
+    def obs_used():
+        return {x for d in obs.values() for x in ([d["x"]] if d["t"] == "det" else list(d["items"]) if d["t"] == "unif" else
+                                                  [i for i, p in d["items"] if F(p) > 0])}
     if nO >= 2:
-        for key in obs:
+        for key in sorted(obs):
             if rng.random() < .1:
-                d = gen_boundary_dist(rng, range(nO), True, TINY_WEIGHTS)
+                d = gen_boundary_dist(rng, range(nO), True, TINY_NORMALISED)
                 if d:
-                    obs[key] = d
+                    old, obs[key] = obs[key], d
+                    if len(obs_used()) < nO:          # every observation id must stay possible somewhere
+                        obs[key] = old
     if n >= 2 and rng.random() < .15:
-        d = gen_boundary_dist(rng, range(n), True, TINY_WEIGHTS)
+        d = gen_boundary_dist(rng, range(n), True, TINY_NORMALISED)
         if d:
             m["init"] = d["items"]
     nN = rng.randint(1, 3)
@@ -537,6 +551,16 @@ def gen_pomdp_run(rng, tier, probe=False):
                 "O": [[[vec(nN) for _ in range(nO)] for _ in range(nA)] for _ in range(nN)]}
         ag0 = None if rng.random() < .6 else vec(nN)
     s0 = None if rng.random() < (.8 if kind == "belief" else .6) else rng.randrange(n)
+
+    def believed(start, belief):
+        """a given start state must be possible under the agent's belief (else the belief update is undefined: the
+        value-based policies then fail inside their own action_dist, which is not the roll-out's concern)"""
+        if start is None or isinstance(belief, list):
+            return start
+        prior = [s_ for s_, p_ in m["init"] if F(p_) > 0]
+        return start if start in prior else rng.choice(prior)
+    if kind == "belief":
+        s0 = believed(s0, ag0)
     capn = 40 if cap == "large" else cap
     tiny = .25 if has_tiny([m, obs]) else .04
     c = {"kind": "pomdp_run", "mdp": m, "obs": obs, "nO": nO, "ctrl": ctrl, "s0": s0, "ag0": ag0, "cap": cap,
@@ -555,7 +579,10 @@ def gen_pomdp_run(rng, tier, probe=False):
             ag2 = None if rng.random() < .5 else rng.randrange(nN)
         else:
             ag2 = None if rng.random() < .5 else vec(nN)
-        c["second"] = {"s0": None if rng.random() < .5 else rng.randrange(n), "ag0": ag2, "cap": cap2,
+        s2 = None if rng.random() < .5 else rng.randrange(n)
+        if kind == "belief":
+            s2 = believed(s2, ag2)
+        c["second"] = {"s0": s2, "ag0": ag2, "cap": cap2,
                        "stream": gen_stream(rng, 3 * cap2 + 3, True), "gstream": gen_stream(rng, 4, True)}
     if probe:
         c["probe_fsc"] = True
@@ -786,6 +813,36 @@ def exact_vn(case, cap_int, s0):
     return total
 
 
+TINY = F(1, 2 ** 27)
+
+
+def rel_weight(d, x):
+    if d["t"] != "dict":
+        return F(1)
+    tot = sum(F(p) for _, p in d["items"])
+    return dweight(d, x) / tot
+
+
+def tiny_events_mdp(case, steps, first_state, sampled):
+    """how many drawn events (start, action, successor) had probability <= 2^-27"""
+    m, pol = case["mdp"], policy_dists(case)
+    k = 0
+    if sampled and rel_weight({"t": "dict", "items": m["init"]}, first_state) <= TINY:
+        k += 1
+    for st in steps:
+        s_, a_, ns_ = st[0], st[1], st[2]
+        k += rel_weight(pol[s_], a_) <= TINY
+        k += rel_weight({"t": "dict", "items": m["trans"]["%d,%d" % (s_, a_)]}, ns_) <= TINY
+    return k
+
+
+def size_feats(feats, m, nO=None):
+    for name, ok in (("one_state", m["n"] == 1), ("one_action", m["nA"] == 1), ("n_states_eq_n_actions", m["n"] == m["nA"]),
+                     ("one_observation", nO == 1)):
+        if ok:
+            feats["size_" + name] = feats.get("size_" + name, 0) + 1
+
+
 # ----------------------------------------------------------------------------- run
 def deq(v):
     """('QO', n, d) -> Fraction, recursively"""
@@ -865,6 +922,7 @@ def run(ctx):
 
     terms, meta = [], []
     long_returns = []
+    long_runs = []
     skipped = {}
     int_gamma_reported = False
     fsc_defects = {}
@@ -916,6 +974,9 @@ def run(ctx):
         if case["kind"] == "returns" and case.get("long"):
             long_returns.append(i)
             continue
+        if case.get("python_only"):
+            long_runs.append(i)
+            continue
         terms.append(term_for(case, res))
         meta.append((i, case["kind"]))
         if case["kind"] == "mdp_eval" and case.get("deterministic"):
@@ -945,6 +1006,25 @@ def run(ctx):
             detail["correspondence"] = "model/Rollout.v (theorems props/C14.v) and msdm disagree on the same recorded stream"
             ctx.violation("C14:%s:mirror-differs:%s" % (case["kind"], what), detail, found=False)
 
+    def reuse_checks(case, res):
+        """caller's objects untouched; first result unchanged after a second call; same problem built twice = same outcome"""
+        if "inputs_unchanged" in res:
+            feats["inputs_snapshot_compared"] = feats.get("inputs_snapshot_compared", 0) + 1
+            if not res["inputs_unchanged"]:
+                mismatch(case, res, "inputs", None, "roll-out modified the caller's MDP/policy/reward objects")
+        if res.get("first_result_stable") is not None:
+            feats["first_result_requeried_after_second_call"] = feats.get("first_result_requeried_after_second_call", 0) + 1
+            if not res["first_result_stable"]:
+                mismatch(case, res, "stale", None, "result of the first call changed after a second call on the same policy object")
+        if "twice_same" in res:
+            feats["same_problem_built_twice"] = feats.get("same_problem_built_twice", 0) + 1
+            if not res["twice_same"]:
+                mismatch(case, res, "twice", None, "the same problem built twice in one process gave different roll-outs")
+        o = case.get("opts") or {}
+        for f in ("int_types", "float32", "int_arrays"):
+            if o.get(f):
+                feats["numtype_" + f] = feats.get("numtype_" + f, 0) + 1
+
     for (i, kind), v in zip(meta, vals):
         case, res = cases[i], impl[i]
         if isinstance(v, vlib.CoqError):
@@ -966,8 +1046,17 @@ def run(ctx):
                     "roll-out without rng argument did not draw from the default generator"
             if clause is None and not all(res["container"].values()):
                 clause = "SimulationResult/Step entry point misbehaves: " + ",".join(k for k, ok in sorted(res["container"].items()) if not ok)
+            reuse_checks(case, res)
+            size_feats(feats, case["mdp"])
+            te = tiny_events_mdp(case, steps, ([st[0] for st in steps] + [res["final"]])[0], case["s0"] is None)
+            feats["tiny_prob_events_drawn"] = feats.get("tiny_prob_events_drawn", 0) + te
+            feats["nondyadic_reward_steps_bit_exact"] = feats.get("nondyadic_reward_steps_bit_exact", 0) + \
+                sum(1 for st in steps if st[3].denominator > 2 ** 20)
+            feats["reward_magnitude_ge_1e9_steps"] = feats.get("reward_magnitude_ge_1e9_steps", 0) + sum(1 for st in steps if abs(st[3]) >= 10 ** 9)
             if len(steps) >= FUEL:
                 feats["too_long_for_model"] += 1
+                if clause:
+                    mismatch(case, res, "trajectory", None, clause)
                 continue
             msteps, mfin, mdraws = v
             if clause or [list(x) for x in msteps] != steps or mfin != res["final"] or mdraws != src["draws"] \
@@ -1002,8 +1091,14 @@ def run(ctx):
             for ro in res["rollouts"]:
                 st = [[s, a, ns, vlib.frac(r)] for s, a, ns, r, _ in ro["steps"]]
                 clause = clause or mdp_clauses(case, st, ro["final"], None, cap_int_of(case))
+            reuse_checks(case, res)
+            for ro in res["rollouts"]:
+                st_ = [[s_, a_, ns_, vlib.frac(r_)] for s_, a_, ns_, r_, _ in ro["steps"]]
+                feats["tiny_prob_events_drawn"] = feats.get("tiny_prob_events_drawn", 0) + tiny_events_mdp(case, st_, ro["acc_state"][0], True)
             if any(len(ro["steps"]) >= FUEL for ro in res["rollouts"]):
                 feats["too_long_for_model"] += 1
+                if clause:
+                    mismatch(case, res, "evaluation roll-outs", None, clause)
                 continue
             itrajs = [([[s, a, ns, vlib.frac(r)] for s, a, ns, r, _ in ro["steps"]], ro["final"]) for ro in res["rollouts"]]
             mt = [([list(x) for x in t[0]], t[1]) for t in mtrajs]
@@ -1081,6 +1176,12 @@ def run(ctx):
                         feats["belief_support_beyond_prior_start_sampled"] = feats.get("belief_support_beyond_prior_start_sampled", 0) + 1
                 if b0 == "prior":
                     feats["belief_prior_passed_explicitly"] = feats.get("belief_prior_passed_explicitly", 0) + 1
+            size_feats(feats, case["mdp"], case["nO"])
+            for st_ in res["steps"]:
+                if rel_weight(case["obs"]["%d,%d" % (st_[2], st_[3])], st_[5]) <= TINY:
+                    feats["tiny_prob_observations_drawn"] = feats.get("tiny_prob_observations_drawn", 0) + 1
+            if case["s0"] is None and rel_weight({"t": "dict", "items": case["mdp"]["init"]}, res["final"][0] if not res["steps"] else res["steps"][0][0]) <= TINY:
+                feats["tiny_prob_events_drawn"] = feats.get("tiny_prob_events_drawn", 0) + 1
             if "evaluate_on" in res:
                 feats["pomdp_evaluate_on_not_implemented"] = feats.get("pomdp_evaluate_on_not_implemented", 0) + (res["evaluate_on"] == "NotImplementedError")
             if "_parent" in case:
@@ -1144,7 +1245,15 @@ def run(ctx):
             rec = returns_rec([F(r) for r in case["rewards"]], g)
             if case.get("gamma_int"):
                 feats["returns_gamma_int_ok"] = feats.get("returns_gamma_int_ok", 0) + 1
-            for name in ("returns", "returns_intlist", "returns_tuple", "returns_ndarray"):
+            if not res.get("inputs_unchanged", True):
+                mismatch(case, res, "inputs", None, "calc_returns modified the caller's reward list")
+            if "returns_float32" in res:
+                feats["returns_float32"] = feats.get("returns_float32", 0) + 1
+            if any(F(r).denominator not in (1, 2, 4) for r in case["rewards"]):
+                feats["returns_nondyadic_rewards"] = feats.get("returns_nondyadic_rewards", 0) + 1
+            if any(abs(F(r)) >= 10 ** 9 for r in case["rewards"]):
+                feats["returns_magnitude_1e9"] = feats.get("returns_magnitude_1e9", 0) + 1
+            for name in ("returns", "returns_intlist", "returns_tuple", "returns_ndarray") + (("returns_float32",) if "returns_float32" in res else ()):
                 got = res[name]
                 if len(got) != len(rec) or any(isinstance(x, str) or not close(vlib.frac(x), y) for x, y in zip(got, rec)):
                     mismatch(case, res, "returns", v, "discounted returns differ from the backward recursion")
@@ -1154,6 +1263,35 @@ def run(ctx):
                     mismatch(case, res, "returns", v)
             if len(rec) > 1:
                 distinct.add(vlib.structural_hash(case))
+
+    # episodes of more than 1000 steps: every clause in exact rationals, in Python only (the model's fuel is 150 steps)
+    for i in long_runs:
+        case, res = cases[i], impl[i]
+        feats["long_episodes_python_only"] = feats.get("long_episodes_python_only", 0) + 1
+        if case["kind"] == "mdp_run":
+            steps = [[s_, a_, ns_, vlib.frac(r_)] for s_, a_, ns_, r_, _ in res["steps"]]
+            clause = mdp_clauses(case, steps, res["final"], case["s0"], case["cap"])
+            if clause is None and not (accessors_ok(res) and all(res["container"].values())):
+                clause = "SimulationResult accessors inconsistent with the steps"
+            if clause is None and len(steps) != case["cap"]:
+                clause = "roll-out stopped before the cap at a non-absorbing state"
+            if clause is None and res["rng"]["draws_outside_requests"]:
+                clause = "roll-out drew from the generator outside choices/choice requests"
+            feats["long_episode_steps"] = feats.get("long_episode_steps", 0) + len(steps)
+            if clause:
+                small = dict(res, steps="(" + str(len(res["steps"])) + " steps)", acc_state="...", acc_action="...",
+                             acc_next_state="...", acc_reward="...")
+                mismatch(case, small, "long episode", None, clause)
+        else:
+            clause = eval_clauses(case, res)
+            for ro in res["rollouts"]:
+                st_ = [[s_, a_, ns_, vlib.frac(r_)] for s_, a_, ns_, r_, _ in ro["steps"]]
+                clause = clause or mdp_clauses(case, st_, ro["final"], None, case["cap"])
+                feats["long_episode_steps"] = feats.get("long_episode_steps", 0) + len(st_)
+            if clause:
+                mismatch(case, {"initial_value": res["initial_value"], "n_rollouts": len(res["rollouts"])}, "long evaluation", None, clause)
+        distinct.add(vlib.structural_hash([case["mdp"], case["policy"], case["cap"], case["kind"]]))
+    counts["long_episodes"] = len(long_runs)
 
     # long reward lists: exact backward recursion in Python only (exact rationals of this size are too slow in vm_compute)
     n_long = 0
@@ -1210,7 +1348,13 @@ def run(ctx):
                 "TabularMarkovDecisionProcess.from_matrices; labels str/tuple/float/int-permutation/bool in non-sorted order incl. falsy "
                 "'' () 0 0.0 False; rng omitted = default generator; initial_state omitted vs None; rewards list/tuple/ndarray), "
                 "SimulationResult/Step entry points (__getitem__ int/slice/column/columns/invalid, __iter__, __eq__, attribute access, repr, "
-                "deprecated *_traj), POMDPPolicy.evaluate_on error path; distinct = structural hash of "
+                "deprecated *_traj), POMDPPolicy.evaluate_on error path; round-2 classes: probabilities 2^-40 / 2^-52 / 2^-60 in policy, "
+                "transition, initial and observation distributions with stream values 2^-70 and 1/2+2^-45 that select them "
+                "(tiny_prob_events_drawn); rewards up to 1e9 with 1e-6 relative gaps; non-dyadic rows (0.7/0.2/0.1, thirds, sevenths) and "
+                "rewards (0.1, 1/3, 22/7) with rewards compared bit-exactly to the doubles msdm was given; one distribution object shared "
+                "by equal rows and one action list shared by states, inputs snapshotted before/after; first result re-read after a second "
+                "call, second evaluate_on on the same policy, same problem built twice in a process; int-typed rewards/probabilities, "
+                "integer and float32 arrays; one state / action / observation; episodes of 1100..1500 steps (Python-only exact clauses); distinct = structural hash of "
                 "(model, policy, start, cap, trajectory); non-trivial = at least one step taken (returns: length > 1)" % (5 if tier == "quick" else 7),
         "samples": [{"case": cases[0], "impl": impl[0]}] if cases else [],
         "by_kind": counts, "by_cap": caps, "input_features": feats, "skipped": skipped, "cases": len(cases),
